@@ -407,7 +407,34 @@ func BoundedLoopEdge(from, to *ssa.BasicBlock) bool {
 			return true
 		}
 	}
+	// i > N with i decremented
+	if bo, ok := iff.Cond.(*ssa.BinOp); ok && (bo.Op == token.GTR || bo.Op == token.GEQ) {
+		if isDownCounter(bo.X, from) && invariantIn(bo.Y, from) {
+			return true
+		}
+	}
 	return false
+}
+
+// isDownCounter: v is phi(c0, phi-k) with k>0 constant.
+func isDownCounter(v ssa.Value, at *ssa.BasicBlock) bool {
+	ph, ok := Strip(v).(*ssa.Phi)
+	if !ok {
+		return false
+	}
+	n := 0
+	for _, e := range ph.Edges {
+		if bo, ok := e.(*ssa.BinOp); ok && bo.Op == token.SUB && bo.X == ssa.Value(ph) {
+			if k, okk := ConstInt(bo.Y); okk && k > 0 {
+				n++
+				continue
+			}
+		}
+		if !invariantIn(e, at) {
+			return false
+		}
+	}
+	return n >= 1
 }
 
 // isCounter: v is phi(c0, phi+k) or (phi+k) with k>0 constant.
@@ -458,6 +485,33 @@ func invariantIn(v ssa.Value, at *ssa.BasicBlock) bool {
 	v = Strip(v)
 	switch x := v.(type) {
 	case *ssa.Const, *ssa.Parameter, *ssa.FreeVar:
+		return true
+	case *ssa.Convert:
+		return invariantIn(x.X, at)
+	case *ssa.BinOp:
+		if x.Block() == at || !x.Block().Dominates(at) {
+			return invariantIn(x.X, at) && invariantIn(x.Y, at)
+		}
+		return true
+	case *ssa.Phi:
+		if x.Block() != at {
+			return x.Block().Dominates(at)
+		}
+		// a phi of the loop header that only merges values fixed before the loop (or itself)
+		for _, ed := range x.Edges {
+			if ed == ssa.Value(x) {
+				continue
+			}
+			switch y := ed.(type) {
+			case *ssa.Const, *ssa.Parameter:
+			case ssa.Instruction:
+				if y.Block() == at || !y.Block().Dominates(at) {
+					return false
+				}
+			default:
+				return false
+			}
+		}
 		return true
 	case ssa.Instruction:
 		b := x.Block()
